@@ -82,7 +82,19 @@ SCOPE = (
     "with taumax in {inf,0,2**-30,1,5/2,4} and lag in {-3/4,0,2**-30,1/2,1} rescaled alike: ES, the "
     "four ECA rates, the three window rates and the directed ES/ECA matrices equal the Fraction "
     "counting formulas at every scale (1e-12 / 1e-6), lie in [0,1] and equal the scale-1 values "
-    "bit for bit.")
+    "bit for bit.  EventSeriesClimateNetwork significance options (checks .../p_value-* and "
+    ".../pval-method-*): seeded binary observables T=10..18, N=2..4 (>= 4 events per series) x method "
+    "ES/ECA x symmetrisation x window, n_surr=8 shuffle surrogates with np.random seeded, p_value in "
+    "{0,1/8,1/4,1/2,7/8,1}: the harness reproduces the documented Monte-Carlo scheme (each surrogate "
+    "shuffles every column of the previous one, in column order) and scores the surrogates with the "
+    "Fraction counting rules; a score keeps exactly its ES/ECA value when its significance level "
+    "(fraction of surrogates with a strictly smaller score) is >= 1 - p_value and is 0 otherwise "
+    "(p_value=1 keeps everything), method '*_pval' stores the significance levels; links = positive "
+    "similarity; entries whose score or one of whose surrogate scores is undefined are not asserted.  "
+    "More nodes than samples (checks EventSeries.__init__/threshold-more-variables-than-samples, "
+    "EventSeriesClimateNetwork/construct-more-nodes-than-samples): integer observables [time, "
+    "variables] with T=5..8 < N <= T+3, quantile thresholds: the event matrix is the T x N matrix of "
+    "samples beyond each variable's threshold and the network has N nodes.")
 RULE = (
     "Distinct+nontrivial: an ES pair counts when both sequences have >= 3 events (inner events "
     "exist); an ECA pair when both are non-empty and at least one rate is defined for some setting; a "
